@@ -282,7 +282,14 @@ def FLOOR(
     if significance == 0:
         raise xlerrors.DivZeroExcelError()
 
-    return significance * math.floor(number / significance)
+    # Computed on the decimal representations, see CEILING.
+    number = decimal.Decimal(str(float(number)))
+    significance = decimal.Decimal(str(float(significance)))
+    with decimal.localcontext() as dc:
+        dc.prec = 400
+        multiples = (number / significance).to_integral_value(
+            rounding=decimal.ROUND_FLOOR)
+        return float(multiples * significance)
 
 
 @xl.register()
